@@ -197,6 +197,27 @@ def run_case(spec, sub=None):
                         )
                         break
 
+    # a derived (non-inplace) tree and the tree it was derived from must both
+    # keep reporting their own figures
+    if not viol:
+        rest = [ix for ix in sizes if ix not in dict(removed)]
+        if rest:
+            ix2 = rest[spec["aseed"] % len(rest)]
+            ok, t2 = guarded(tree.remove_ind, ix2)
+            if not ok:
+                viol.append(f"remove_ind({ix2!r}) raised {t2}")
+            else:
+                cr2 = ref.CostRef(inputs, output, sizes, removed + [(ix2, None)])
+                st2 = cr2.stats([(p, l, r) for p, l, r in t2.traverse()])
+                got2 = dict(t2.contract_stats())
+                if got2 != {"flops": st2["flops"], "write": st2["write"], "size": st2["size"]} or t2.max_size() != st2["size"]:
+                    viol.append(f"derived tree (sliced on {ix2!r}) reports {got2}, definition {st2['flops']}/{st2['write']}/{st2['size']}")
+                again = dict(tree.contract_stats())
+                if again != want or tree.max_size() != want["size"] or tree.total_flops() != want["flops"]:
+                    viol.append(
+                        f"after deriving a sliced tree with remove_ind({ix2!r}), the ORIGINAL tree reports {again} (max_size {tree.max_size()}), definition {want}"
+                    )
+
     cls = gen.net_classes(net)
     nontrivial = bool(removed) or bool(cls & {"hyper", "repeat"})
     tags = sorted(cls) + [f"order={spec['order']}", f"removed={len(removed)}"]
